@@ -146,7 +146,8 @@ func (p *IdentityProvider) ssoHandleFunc(w http.ResponseWriter, r *http.Request)
 			func() string { return authRequestForm.Sig },
 			func() string { return authRequestForm.Binding },
 		),
-		verifyRedirectSignature(
+		verifyRedirectSignatureAsReceived(
+			func() string { return r.URL.RawQuery },
 			func() string { return authRequestForm.AuthRequest },
 			func() string { return authRequestForm.RelayState },
 			func() string { return authRequestForm.Sig },
